@@ -228,7 +228,8 @@ def rule_interface(repo, rep):
         raise AnalysisError("serialise_operator: list of input tensor indices not found")
     g_ = comps[0].generators[0]
     elt = comps[0].elt
-    ok = not g_.ifs and isinstance(elt, ast.IfExp) and "-1" in (str(norm(elt.orelse)), str(norm(elt.body)))
+    ok = not g_.ifs and ((isinstance(elt, ast.IfExp) and "-1" in (str(norm(elt.orelse)), str(norm(elt.body)))) or
+                         (isinstance(elt, ast.Call) and isinstance(elt.func, ast.Attribute) and elt.func.attr == "get" and len(elt.args) == 2 and str(norm(elt.args[1])) == "-1"))
     rep.check(ok, "C11-c", osite, "one index per entry of op.inputs: absent operands are written as -1 in place",
               f"`{str(norm(comps[0]))[:120]}`: an absent optional operand is dropped and the operands behind it move up one position")
     # flatbuffer vectors are built back to front (Prepend*): every vector writer feeds the builder the reversed sequence
